@@ -760,6 +760,52 @@ func one(o *hout.Out, tmp string, idx int, desc string, doc *generator.Doc, cfg 
 				}
 			}
 		}
+		// the arguments of every populating constructor are exactly the required members, in schema order — fields,
+		// groups and components alike (the four framing fields are never members)
+		{
+			parents := map[string][]*generator.ComponentMember{"Header": doc.Header.Members, "Trailer": doc.Trailer.Members}
+			for _, m := range doc.Messages {
+				parents[m.Name] = m.Members
+			}
+			for _, c := range doc.Components {
+				parents[c.Name] = c.Members
+			}
+			badArgs := ""
+			for _, l := range lines {
+				if !strings.HasPrefix(l, "new ") || badArgs != "" {
+					continue
+				}
+				rest := strings.TrimPrefix(l, "new ")
+				sp := strings.Index(rest, " (")
+				cl := strings.Index(rest, ") : ")
+				if sp < 0 || cl < 0 {
+					continue
+				}
+				name := rest[:sp]
+				ms, known := parents[name]
+				if !known {
+					continue
+				}
+				var got []string
+				for _, a := range strings.Split(rest[sp+2:cl], ", ") {
+					if f := strings.Fields(a); len(f) > 0 {
+						got = append(got, f[0])
+					}
+				}
+				var want []string
+				for _, m := range ms {
+					if m.Required == "Y" && !generator.ExcludedFields[m.Name] {
+						want = append(want, strings.ToLower(m.Name[:1])+m.Name[1:])
+					}
+				}
+				if strings.Join(got, ",") != strings.Join(want, ",") {
+					badArgs = fmt.Sprintf("New%s takes (%s), the required members of %s are (%s)", name, strings.Join(got, ", "), name, strings.Join(want, ", "))
+				}
+			}
+			if badArgs != "" {
+				o.Fail("C12", "constructor-arguments-not-the-required-members", desc+": "+badArgs)
+			}
+		}
 		if badAcc != "" {
 			o.Fail("C12", "accessor-bound-to-another-member", desc+": "+badAcc)
 		}
